@@ -26,7 +26,7 @@ TERM_RE = re.compile(r"(CPU limit of \d+ exceeded|memory limit of \d+ exceeded|t
 
 # events that only code running AFTER the protected region / the kill can emit
 AFTER_MARKERS = {"after-pcall", "handler", "after-xpcall", "after-resume", "guard-closed", "in-close", "after-scope",
-                 "after-wrap", "inner", "outer", "after-callctx", "after-gc"}
+                 "after-wrap", "inner", "outer", "after-callctx", "after-gc", "close-returned", "wrap-returned"}
 
 
 def hexs(s):
@@ -191,6 +191,16 @@ def run(tier, seed):
                   "local t={} while true do t[#t+1]=1 t[#t]=nil end", "repeat local s=('x'):rep(3) until false",
                   "for i=1,math.huge do end", "local co=coroutine.wrap(function() while true do coroutine.yield() end end) while true do co() end",
                   "while true do pcall(error,'x') end", "while true do pcall(function() while true do end end) end",
+                  # the limit is hit inside a __close handler run while a coroutine stops: closed while suspended, ending
+                  # by an error, ending by a return, closed from inside another handler
+                  "local co=coroutine.create(function() local g<close> = setmetatable({},{__close=function() while true do end end}) coroutine.yield() end) "
+                  "coroutine.resume(co) emit('close-returned', coroutine.close(co))",
+                  "local co=coroutine.wrap(function() local g<close> = setmetatable({},{__close=function() while true do end end}) error('x') end) "
+                  "emit('wrap-returned', pcall(co))",
+                  "local co=coroutine.wrap(function() local g<close> = setmetatable({},{__close=function() while true do end end}) return 1 end) "
+                  "emit('wrap-returned', pcall(co))",
+                  "local co=coroutine.create(function() local g<close> = setmetatable({},{__close=function() while true do end end}) coroutine.yield() end) "
+                  "coroutine.resume(co) do local h<close> = setmetatable({},{__close=function() emit('close-returned', coroutine.close(co)) end}) end",
                   ]   # (a self-retriggering __index is not "non-terminating": it ends in a stack-overflow error, see C04)
     inf_cases = []
     for bi, body in enumerate(inf_bodies):
